@@ -14,6 +14,7 @@ import (
 	cpacket "go.minekube.com/gate/pkg/edition/java/proto/packet/cookie"
 	"go.minekube.com/gate/pkg/edition/java/proxy/tablist"
 	"go.minekube.com/gate/pkg/internal/future"
+	"go.minekube.com/gate/pkg/internal/verifhook"
 
 	"github.com/gammazero/deque"
 	"go.minekube.com/common/minecraft/component"
@@ -96,6 +97,7 @@ func (c *clientPlaySessionHandler) enqueueLoginPluginMessage(msg *plugin.Message
 	}
 	c.mu.loginPluginMessages.PushBack(msg)
 	c.mu.loginPluginMessagesBytes = newBytes
+	verifhook.Event("pmq.play.queued", "n", len(msg.Data), "count", newCount, "bytes", newBytes)
 	c.mu.Unlock()
 	return true
 }
@@ -108,6 +110,7 @@ func (c *clientPlaySessionHandler) drainQueuedLoginPluginMessages() []*plugin.Me
 	defer c.mu.Unlock()
 	c.mu.loginPluginMessagesBytes = 0
 	n := c.mu.loginPluginMessages.Len()
+	verifhook.Event("pmq.play.drained", "n", n)
 	if n == 0 {
 		return nil
 	}
@@ -312,10 +315,12 @@ func sendKeepAliveToBackend(serverConn *serverConnection, player *connectedPlaye
 }
 
 func consumePendingKeepAlive(serverConn *serverConnection, randomID int64) (time.Time, bool) {
+	verifhook.Point("ka.consume", "id", randomID)
 	serverConn.mu.Lock()
 	defer serverConn.mu.Unlock()
 
 	sentTime, ok := serverConn.pendingPings.Get(randomID)
+	verifhook.Event("ka.consumed", "id", randomID, "ok", ok)
 	if !ok {
 		return time.Time{}, false
 	}
@@ -331,6 +336,7 @@ func recordBackendKeepAlive(serverConn *serverConnection, p *packet.KeepAlive) {
 	defer serverConn.mu.Unlock()
 
 	serverConn.pendingPings.Set(p.RandomID, time.Now())
+	verifhook.Event("ka.recorded", "id", p.RandomID)
 }
 
 func (c *clientPlaySessionHandler) handlePluginMessage(packet *plugin.Message) {
@@ -425,6 +431,7 @@ func (c *clientPlaySessionHandler) handlePluginMessage(packet *plugin.Message) {
 		// We also need to make sure to retain these packets, so they can be flushed
 		// appropriately. The queue is bounded to prevent a client that never
 		// completes its handshake phase from growing it without limit.
+		verifhook.Point("pmq.play.enqueue", "n", len(packet.Data))
 		c.enqueueLoginPluginMessage(packet)
 	}
 }
